@@ -120,13 +120,80 @@ def kname(k):
     return KIND_NAME.get(k, str(k))
 
 
+_LAST = [None]       # the value returned by the most recent successful implementation call (see hold())
+
+
 def impl(f):
     try:
-        return 0, f()
+        v = f()
+        _LAST[0] = v
+        return 0, v
     except common.ModelError:
         raise
     except Exception as e:      # the error kind is data here
         return ekind(e), e
+
+
+# ----- results are VALUES: what a call returned must not be changed by later calls of the kernel (a result living in a
+# cached / shared work buffer would be overwritten by the next call on operands of the same shape)
+HELD_WHAT = "the value returned by an earlier call is not changed by later kernel calls"
+HELD_WINDOW = 24
+
+
+def _same(a, b):
+    if isinstance(a, np.ndarray) or isinstance(a, np.generic):
+        a, b = np.asarray(a), np.asarray(b)
+        return a.shape == b.shape and bool(np.array_equal(a, b, equal_nan=True))
+    return a.shape == b.shape and bool(((a == b) | ((a != a) & (b != b))).all())
+
+
+def _snapshot(v):
+    import torch
+    if isinstance(v, torch.Tensor):
+        return v.detach().clone()
+    if isinstance(v, (np.ndarray, np.generic)):
+        return np.array(v, copy=True)
+    return None
+
+
+def _check_held(ctx, entry, later, calls_ago):
+    val, snap, case = entry
+    if _same(val, snap):
+        return True
+    c = dict(case, held_result_changed=True, calls_ago=int(calls_ago),
+             later_call={"fn": later.get("fn"), "shapes": [later.get("x_shape"), later.get("y_shape")]})
+    if calls_ago == 1:
+        c["later"] = later                       # self-contained: replay runs the two calls one after the other
+    try:
+        d = np.asarray(val.detach() if hasattr(val, "detach") else val, dtype=float) - np.asarray(snap, dtype=float)
+        detail = "the tensor returned by %s changed by up to %.3g after %d later call(s) (last: %s)" % (
+            case.get("fn"), float(np.nanmax(np.abs(d))) if d.size else 0.0, calls_ago, later.get("fn"))
+    except Exception:
+        detail = "the returned object changed after a later call"
+    ctx.require(HELD_WHAT, False, c, detail)
+    entry[1] = _snapshot(val)                    # report a change once
+    return False
+
+
+def hold(ctx, case, val):
+    """called after every case: re-verify the newest earlier result now, and every result once more when it leaves the
+    window of HELD_WINDOW calls; then keep this call's result"""
+    ring = ctx.__dict__.setdefault("_c15_ring", [])
+    if ring:
+        _check_held(ctx, ring[-1], case, 1)
+    if len(ring) >= HELD_WINDOW:
+        _check_held(ctx, ring.pop(0), case, HELD_WINDOW)
+    snap = _snapshot(val)
+    if snap is not None:
+        ring.append([val, snap, {k: v for k, v in case.items() if k != "later"}])
+        ctx.count("held results re-verified after later calls")
+
+
+def flush_held(ctx):
+    ring = ctx.__dict__.setdefault("_c15_ring", [])
+    for i, e in enumerate(ring):
+        _check_held(ctx, e, {"fn": "(end of the generator)"}, len(ring) - i + 1)
+    del ring[:]
 
 
 def okc(got, want, scale, rtol=1e-9):
@@ -352,6 +419,46 @@ def eval_un(ctx, cplx, case, corr):
         ctx.agree_exact(fn + ": raises (1) / returns (0) (model: total function)", int(kind != 0), 0, case)
 
 
+NP_VIEWS = ["rev", "rev0", "revlast", "step2", "T", "F", "0d", "part", "readonly"]
+
+
+def np_view(arr, how):
+    """an ndarray with the values, dtype and shape of `arr` in another memory layout (mostly VIEWS of a larger / flipped
+    base array): rev = every axis reversed, rev0 / revlast = first / last axis reversed (negative strides), step2 = every
+    second entry of a larger buffer, T = transposed storage, F = Fortran order, 0d = a 0-d view into a matrix,
+    part = the .real of a complex base (float64 input, stride 16) / a field of a wider base, readonly = not writeable"""
+    arr = np.asarray(arr)
+    nd = arr.ndim
+    if how == "rev" and nd >= 1:
+        ix = (slice(None, None, -1),) * nd
+        return arr[ix].copy()[ix]
+    if how == "rev0" and nd >= 1:
+        return arr[::-1].copy()[::-1]
+    if how == "revlast" and nd >= 1:
+        return arr[..., ::-1].copy()[..., ::-1]
+    if how == "step2" and nd >= 1:
+        base = np.full(arr.shape[:-1] + (2 * arr.shape[-1] + 1,), 99, dtype=arr.dtype)
+        base[..., 1::2] = arr
+        return base[..., 1::2]
+    if how == "T" and nd >= 2:
+        return np.swapaxes(np.swapaxes(arr, 0, 1).copy(), 0, 1)
+    if how == "F" and nd >= 2:
+        return np.asfortranarray(arr)
+    if how == "0d" and nd == 0:
+        base = np.array([[9, arr[()], 9], [9, 9, 9]], dtype=arr.dtype)
+        return base[0, 1, ...]
+    if how == "part":
+        if arr.dtype == np.float64:
+            return np.asarray(arr + 7j, dtype=np.complex128).reshape(arr.shape).real   # a float64 view with stride 16 into a complex base
+        base = np.stack([arr, arr + 1], axis=-1)
+        return base[..., 0]
+    if how == "readonly":
+        v = arr.copy()
+        v.setflags(write=False)
+        return v
+    return arr
+
+
 def eval_make_complex(ctx, cplx, case, corr):
     import torch
     form = case["form"]
@@ -371,6 +478,15 @@ def eval_make_complex(ctx, cplx, case, corr):
             arr = np.asarray(x.numpy().astype(np.float64).astype(npd))
         if case.get("transposed") and arr.ndim >= 2:
             arr = np.swapaxes(arr, 0, 1)                  # a non-contiguous numpy view as input
+        if case.get("np_view"):
+            shp0 = arr.shape
+            arr = np_view(arr, case["np_view"])
+            assert isinstance(arr, np.ndarray) and arr.shape == shp0
+            ctx.count("make_complex(ndarray view):%s%s" % (case["np_view"], "" if arr.flags.c_contiguous else " (non-contiguous)"))
+            if any(st < 0 for st in arr.strides):
+                ctx.count("make_complex(ndarray view): negative strides")
+            if arr.ndim == 0:
+                ctx.count("make_complex(ndarray view): 0-d")
         arr_before = arr.copy()
         kind, val = impl(lambda: cplx.make_complex(arr))
         ctx.count("make_complex(ndarray):" + npd)
@@ -386,7 +502,7 @@ def eval_make_complex(ctx, cplx, case, corr):
             req_value(ctx, case, "make_complex", kind, val, want, 0.0,
                       rtol=(1e-6 if case.get("np_dtype") == "complex64" else 1e-9))
         ctx.require("make_complex leaves the numpy input unchanged", bool(np.array_equal(arr, arr_before)), case)
-        if kind == 0 and isinstance(val, torch.Tensor) and arr.size:
+        if kind == 0 and isinstance(val, torch.Tensor) and arr.size and arr.flags.writeable:
             # the result is a value: a later write to the caller's array must not change it
             snap = val.clone()
             arr += np.asarray(1, dtype=arr.dtype)
@@ -414,24 +530,70 @@ def eval_make_complex(ctx, cplx, case, corr):
         corr_res(ctx, case, "make_complex", kind, val, m.call("c15_make_complex", x0, y), 1.0)
 
 
+POLE_CUTOFF = 1e-12         # |1 + e^z| below this: the quotient is not resolved by double precision (skipped, counted)
+
+
+def sigmoid_den(x, y):
+    """|1 + e^z| elementwise: the conditioning of e^z / (1 + e^z) (the sum cancels next to a pole z = i(2k+1)pi)"""
+    z = np.asarray(x, dtype=np.float64) + 1j * np.asarray(y, dtype=np.float64)
+    with np.errstate(all="ignore"):
+        den = np.abs(1.0 + np.exp(z))
+    return np.where(np.isnan(den), np.inf, den)
+
+
+def sigmoid_ok(got, want, den):
+    """elementwise: |got - want| <= 1e-9 max(1, |want|) + (64 eps / |1+e^z|) |want|  -- the second term is the rounding
+    error ANY complex128 evaluation of the quotient has next to a pole; entries with |1+e^z| < POLE_CUTOFF are not compared"""
+    got, want = np.asarray(got), np.asarray(want)
+    if got.shape != want.shape:
+        return False, "shape %s, expected %s" % (list(got.shape), list(want.shape))
+    if want.size == 0:
+        return True, ""
+    with np.errstate(all="ignore"):
+        tol = 1e-9 * np.maximum(1.0, np.abs(want)) + (64 * 2.3e-16 / np.maximum(den, 1e-300)) * np.abs(want)
+        d = np.abs(got - want)
+        bad = ~(d <= tol) & (den >= POLE_CUTOFF)
+    if not bool(np.any(bad)):
+        return True, ""
+    i = int(np.argmax(np.where(bad, np.where(np.isnan(d), np.inf, d / np.maximum(tol, 1e-300)), -1.0)))
+    return False, "flat index %d: got %r, e^z/(1+e^z) = %r (|diff| %.3g > tol %.3g; |1+e^z| = %.3g)" % (
+        i, complex(got.flat[i]), complex(want.flat[i]), float(d.flat[i]), float(tol.flat[i]), float(den.flat[i]))
+
+
 def eval_sigmoid(ctx, cplx, case, corr):
     x, y = mk(case, "x"), mk(case, "y")
     x0, y0 = x.clone(), y.clone()
     kind, val = impl(lambda: cplx.sigmoid(x, y))
     expect = case.get("expect")
+    minden = float("inf")
     if expect:
         if not case.get("soft"):
             req_error(ctx, case, "sigmoid", kind, val, expect)
     else:
         want = ref_sigmoid(x0.numpy(), y0.numpy())
-        req_value(ctx, case, "sigmoid", kind, val, want, max(1.0, amax(want)))
+        den = np.broadcast_to(sigmoid_den(x0.numpy(), y0.numpy()), want.shape)
+        minden = float(den.min()) if den.size else float("inf")
+        if den.size:
+            ctx.count("sigmoid: min |1+e^z| in 1e%d.." % int(np.floor(np.log10(max(minden, 1e-300)))) if minden < 1e-2
+                      else "sigmoid: min |1+e^z| >= 1e-2")
+        if kind != 0:
+            ctx.require("sigmoid raised %s on valid operands" % kname(kind), False, case, repr(val)[:300])
+        else:
+            try:
+                ok, detail = sigmoid_ok(decode(val, "c"), want, den)
+                ctx.require("sigmoid == numpy complex128 reference", ok, case, detail)
+            except Exception as e:
+                ctx.require("sigmoid returns a tensor of the documented form", False, case, repr(e)[:300])
     unchanged(ctx, case, "sigmoid", [(x, x0), (y, y0)])
     ctx.count("err:" + kname(kind))
     if corr and modelable(x0, y0) and amax(x0.numpy()) > 300.0:
         ctx.count("sigmoid: |x| > 300, not compared with the model (naive division in the model)")
+    elif corr and modelable(x0, y0) and minden < POLE_CUTOFF:
+        ctx.count("sigmoid: an entry within the pole cutoff, not compared with the model")
     elif corr and modelable(x0, y0):
         scale = max(1.0, amax(Z(val))) if kind == 0 else 1.0
-        corr_res(ctx, case, "sigmoid", kind, val, ctx.get_model().call("c15_sigmoid", x0, y0), scale)
+        tol = {"rtol": max(1e-7, 1e-12 / minden)} if minden < 1e-5 else {}
+        corr_res(ctx, case, "sigmoid", kind, val, ctx.get_model().call("c15_sigmoid", x0, y0), scale, **tol)
 
 
 def eval_einsum(ctx, cplx, case, corr):
@@ -620,7 +782,7 @@ def eval_case(ctx, case, corr=True, shape_flag=True):
         nontriv = "y" in case and bool(np.any(np.asarray(common.flat(case["y"])) != 0))
     opts = {k: case[k] for k in ("form", "out", "eq", "real_part", "imag_part", "expect", "x_is_I", "y_is_I", "transposed",
                                  "x_layout", "y_layout", "out_layout", "out_shape", "extreme_magnitude", "wide_magnitude", "np_dtype",
-                                 "value_or_reject", "degenerate")
+                                 "value_or_reject", "degenerate", "np_view", "near_pole", "pair")
             if k in case}
     for k in ("x_layout", "y_layout", "out_layout"):
         if case.get(k):
@@ -628,6 +790,7 @@ def eval_case(ctx, case, corr=True, shape_flag=True):
     ctx.case({"fn": fn, "shapes": shapes, "opts": opts, "h": float(x.sum()) if x.size else 0.0}, nontrivial=nontriv)
     ctx.count("fn:" + fn)
     ctx.count("rank:%d" % max(0, len(shapes[0] or []) - (1 if cplx_ops else 0)))
+    _LAST[0] = None
     if case.get("extreme_magnitude"):
         eval_extreme(ctx, cplx, case)
     elif fn == "make_complex":
@@ -644,6 +807,7 @@ def eval_case(ctx, case, corr=True, shape_flag=True):
         eval_un(ctx, cplx, case, corr)
     else:
         raise KeyError("unknown function in case: %r" % fn)
+    hold(ctx, case, _LAST[0])
     ctx.traces += 1
 
 
@@ -915,19 +1079,19 @@ def g_sigmoid(ctx, n):
         for d in range(n):
             x = rv(ctx, shp) * [1.0, 6.0, 20.0][d % 3]            # |x| up to ~600, no clipping
             y = rv(ctx, shp)
-            z = x + 1j * y
-            if z.size and float(np.min(np.abs(1.0 + np.exp(z)))) < 1e-3:
-                ctx.count("skipped:sigmoid-near-pole")
+            if x.size and float(np.min(sigmoid_den(x, y))) < POLE_CUTOFF:
+                ctx.count("skipped:sigmoid-within-1e-12-of-a-pole")
                 continue
             yield put(put({"fn": "sigmoid"}, "x", R(x)), "y", R(y)), True
     # numpy broadcasts the real against the imaginary argument
     for sx, sy in BCAST_PAIRS + [rand_bcast_pair(ctx) for _ in range(2 * n)]:
         x, y = rv(ctx, sx, kind="uniform"), rv(ctx, sy, kind="uniform")
-        z = x + 1j * y
-        if z.size and float(np.min(np.abs(1.0 + np.exp(z)))) < 1e-3:
-            ctx.count("skipped:sigmoid-near-pole")
+        if x.size and y.size and float(np.min(sigmoid_den(x, y))) < POLE_CUTOFF:
+            ctx.count("skipped:sigmoid-within-1e-12-of-a-pole")
             continue
         yield put(put({"fn": "sigmoid"}, "x", R(x)), "y", R(y)), sx != sy
+    for c, flag in g_poles(ctx, n, fixed=False):
+        yield c, flag
     for sx, sy in BAD_BCAST:
         c = put(put({"fn": "sigmoid", "expect": "error"}, "x", R(rv(ctx, sx))), "y", R(rv(ctx, sy)))
         yield c, False
@@ -986,6 +1150,201 @@ def g_extreme(ctx, n):
 
 def zc(shape):
     return np.zeros(tuple(shape), dtype=np.complex128)
+
+
+# ----- red-team round 2 classes -----------------------------------------------------------------------------------
+EINSUM_FORMS = [   # equation forms torch.einsum accepts besides 'lower-case labels -> explicit output'
+    # implicit output (no '->': the labels that occur once, in sorted order)
+    ("ij,jk", (2, 3), (3, 4)), ("i,j", (2,), (3,)), ("ba,ab", (2, 3), (3, 2)), ("ji,kj", (3, 2), (4, 3)), ("ki,j", (2, 3), (4,)),
+    ("bi,bi", (2, 3), (2, 3)), ("i,i", (3,), (3,)),
+    # upper-case labels (sorted before lower case), also the letters a rewrite might use for its own axes
+    ("Ab,bC->AC", (2, 3), (3, 2)), ("PQ,QR->PR", (2, 3), (3, 4)), ("Pi,iQ->QP", (2, 3), (3, 4)), ("aB,c", (2, 3), (4,)),
+    ("Ba,aB", (2, 3), (3, 2)), ("RI,IS->SR", (2, 3), (3, 2)), ("Zz,zX", (2, 3), (3, 4)),
+    # ellipsis
+    ("...ij,...jk->...ik", (2, 2, 3), (2, 3, 2)), ("...ij,...jk", (2, 2, 3), (2, 3, 2)), ("i...,i...->...", (3, 2), (3, 2)),
+    ("...,...->...", (2, 3), (2, 3)), ("...i,i->...", (2, 2, 3), (3,)), ("i...j,j->i...", (2, 3, 2), (2,)), ("...,...", (2, 3), (2, 3)),
+    ("a...,...b->b...a", (2, 3), (3, 4)), ("...ij,ij->...", (2, 2, 3), (2, 3)),
+    # blanks
+    ("ij , jk -> ik", (2, 3), (3, 4)), (" ij,jk->ik ", (2, 3), (3, 4)), ("i j,j k->i k", (2, 3), (3, 4)), ("ij, jk", (2, 3), (3, 4)),
+    # repeated labels inside one operand (diagonal / trace), empty output, rank-0 operands
+    ("ii,i->i", (3, 3), (3,)), ("ii,ij->j", (2, 2), (2, 3)), ("ii,jj->", (2, 2), (3, 3)), ("ii,jj", (2, 2), (3, 3)),
+    (",", (), ()), (",->", (), ()), ("i,->i", (3,), ()), (",ij->ji", (), (2, 3)), ("ij,ij->", (2, 3), (2, 3)), ("ij,jk->", (2, 3), (3, 2)),
+    ("ij,kl->jl", (2, 3), (3, 2)),
+]
+EINSUM_LABELS = list("abgijkxyzABIJPQRZ")
+
+
+def rand_equation(ctx):
+    """a random two-operand equation: labels of either case, optional '...' batch dimensions (same batch shape where
+    present, anywhere in the operand), implicit or explicit output (any order, any subset), optional repeated label,
+    optional blanks.  Returns (equation, x shape, y shape)."""
+    rng = ctx.rng
+    pool = [str(c) for c in rng.permutation(EINSUM_LABELS)[:6]]
+    dim = {c: int(rng.integers(1, 4)) for c in pool}
+    ops = []
+    for i in range(2):
+        r = int(rng.integers(0, 4))
+        labs = [str(c) for c in rng.choice(pool, size=r, replace=False)]
+        if r and rng.random() < 0.12:
+            labs.insert(int(rng.integers(0, len(labs) + 1)), labs[0])           # diagonal
+        ops.append(labs)
+    batch = rshape(ctx, int(rng.integers(1, 3))) if rng.random() < 0.3 else None
+    specs, shapes, has_e = [], [], False
+    for labs in ops:
+        shp = [dim[c] for c in labs]
+        spec = list(labs)
+        if batch is not None and rng.random() < 0.75:
+            pos = int(rng.integers(0, len(labs) + 1))
+            spec.insert(pos, "...")
+            shp[pos:pos] = list(batch)
+            has_e = True
+        specs.append("".join(spec))
+        shapes.append(tuple(shp))
+    sep = ", " if rng.random() < 0.15 else ","
+    eq = specs[0] + sep + specs[1]
+    if rng.random() < 0.6:
+        distinct = sorted(set(ops[0]) | set(ops[1]))
+        outl = [c for c in distinct if rng.random() < 0.6]
+        outl = [str(c) for c in rng.permutation(outl)] if outl else []
+        if has_e:
+            outl.insert(int(rng.integers(0, len(outl) + 1)), "...")
+        eq += (" -> " if sep == ", " else "->") + "".join(outl)
+        ctx.count("einsum form: explicit")
+    else:
+        ctx.count("einsum form: implicit")
+    if has_e:
+        ctx.count("einsum form: ellipsis")
+    if any(c.isupper() for c in eq):
+        ctx.count("einsum form: upper-case label")
+    return eq, shapes[0], shapes[1]
+
+
+def g_einsum_forms(ctx, n, fixed=True):
+    sw = [(True, True), (True, False), (False, True)]
+    if fixed:
+        for j, (eq, sx, sy) in enumerate(EINSUM_FORMS):
+            X, Y = rc(ctx, sx, kind="normal"), rc(ctx, sy, kind="normal")
+            yield ccase("einsum", X, Y, eq=eq, real_part=True, imag_part=True), True
+            rp, ip = sw[1 + j % 2]
+            yield ccase("einsum", X, Y, eq=eq, real_part=rp, imag_part=ip), True
+        return
+    for d in range(10 * n):
+        eq, sx, sy = rand_equation(ctx)
+        X, Y = rc(ctx, sx), rc(ctx, sy)
+        try:
+            np.einsum(eq, X, Y)
+        except Exception:
+            ctx.count("einsum form: generated equation not accepted by numpy (dropped)")
+            continue
+        rp, ip = sw[d % 3] if d % 2 else sw[0]
+        yield ccase("einsum", X, Y, eq=eq, real_part=rp, imag_part=ip), True
+
+
+def g_poles(ctx, n, fixed=True):
+    """sigmoid arguments NEXT TO (not at) a pole z = i(2k+1)pi: |z - pole| from 0.3 down to 1e-10, all directions.
+    e^z / (1 + e^z) is finite there (up to ~1e10) and moderate in magnitude of the ARGUMENT"""
+    rng = ctx.rng
+    dirs = [(1.0, 0.0), (0.0, 1.0), (-1.0, 0.0), (0.0, -1.0), (0.6, 0.8), (-0.8, 0.6), (0.8, -0.6), (-0.6, -0.8)]
+    radii = [0.3, 0.1, 1e-2, 2e-3, 1e-3, 5e-4, 1e-4, 3e-5, 1e-5, 1e-6, 1e-7, 1e-8, 1e-9, 1e-10]
+    if fixed:
+        for k in (0, -1, 1, 2):
+            y0 = (2 * k + 1) * np.pi
+            x = np.array([r * dx for r in radii for (dx, dy) in dirs])
+            y = np.array([y0 + r * dy for r in radii for (dx, dy) in dirs])
+            yield put(put({"fn": "sigmoid", "near_pole": True}, "x", R(x)), "y", R(y)), True
+        for r in radii:                                # 0-d and single-entry arguments, one radius each
+            dx, dy = dirs[int(rng.integers(0, len(dirs)))]
+            k = int(rng.integers(-2, 2))
+            for shp in [(), (1,)]:
+                yield put(put({"fn": "sigmoid", "near_pole": True}, "x", R(np.full(shp, r * dx))), "y",
+                          R(np.full(shp, (2 * k + 1) * np.pi + r * dy))), True
+        return
+    for d in range(3 * n):
+        shp = rshape(ctx, int(rng.integers(0, 3)))
+        x, y = rv(ctx, shp, kind="uniform"), rv(ctx, shp, kind="uniform")       # ordinary entries ...
+        m = rng.random(size=shp) < 0.5                                          # ... some replaced by near-pole ones
+        if not np.any(m):
+            m = np.ones(shp, dtype=bool)
+        r = np.power(10.0, rng.uniform(-10.0, -0.5, size=shp))
+        phi = rng.uniform(0.0, 2 * np.pi, size=shp)
+        k = rng.integers(-3, 3, size=shp)
+        x = np.where(m, r * np.cos(phi), x)
+        y = np.where(m, (2 * k + 1) * np.pi + r * np.sin(phi), y)
+        if float(np.min(sigmoid_den(x, y))) < POLE_CUTOFF:
+            ctx.count("skipped:sigmoid-within-1e-12-of-a-pole")
+            continue
+        yield put(put({"fn": "sigmoid", "near_pole": True}, "x", R(x)), "y", R(y)), True
+
+
+def g_np_views(ctx, n, fixed=True):
+    """make_complex(ndarray) on views / other memory layouts of the array (negative strides, 0-d views, ...)"""
+    rng = ctx.rng
+    if fixed:
+        todo = [(npd, shp, v) for npd in ("complex128", "float64") for shp in [(), (1,), (4,), (3, 4), (2, 3, 2)] for v in NP_VIEWS]
+        todo += [(npd, shp, v) for npd in ("int64", "complex64") for shp in [(), (3,), (2, 3)] for v in ("rev", "0d", "step2")]
+    else:
+        todo = [(["complex128", "float64", "complex128", "int64", "complex64"][d % 5], rshape(ctx, int(rng.integers(0, 4))),
+                 NP_VIEWS[int(rng.integers(0, len(NP_VIEWS)))]) for d in range(6 * n)]
+    for npd, shp, v in todo:
+        if (v == "0d" and len(shp) != 0) or (v in ("rev", "rev0", "revlast", "step2") and len(shp) < 1) or \
+                (v in ("T", "F") and len(shp) < 2):
+            continue
+        x, y = rv(ctx, shp, kind="uniform") * 3.0, rv(ctx, shp, kind="uniform")
+        c = put(put({"fn": "make_complex", "form": "numpy", "np_dtype": npd, "np_view": v}, "x", R(x)), "y", R(y))
+        yield c, npd.startswith("complex")
+
+
+def same_shape_pairs(ctx):
+    """every function twice in a row on DIFFERENT operands of the same shapes: the first result is re-verified after the
+    second call (hold()): a result returned in a reused work buffer is reported with both calls in the record"""
+    def two(mkcase):
+        for j in range(2):
+            c = mkcase()
+            c["pair"] = j
+            yield c, True
+    for fn, sx, sy in [("scalar_mult", (2, 3), (2, 3)), ("elementwise_mult", (3,), (3,)), ("matmul", (2, 3), (3, 2)), ("matmul", (2, 3), (3,)),
+                       ("inner_prod", (3,), (3,)), ("inner_prod", (), ()), ("outer_prod", (3,), (3,)), ("outer_prod", (2,), (4,)),
+                       ("kronecker_prod", (2, 2), (2, 3)), ("elementwise_division", (2, 3), (2, 3)), ("scalar_divide", (3,), (3,)),
+                       ("scalar_divide", (2, 2), ())]:
+        nz = fn in ("elementwise_division", "scalar_divide")
+        for r in two(lambda: ccase(fn, rc(ctx, sx, kind="normal"), rc(ctx, sy, nz=nz, kind="normal"))):
+            yield r
+    for fn in ("numpy", "real", "imag", "conj", "conjugate", "absolute_value", "inverse"):
+        for shp in [(3,), (2, 3)]:
+            for r in two(lambda: ccase(fn, rc(ctx, shp, nz=True, kind="normal"))):
+                yield r
+    for fn in ("norm", "norm_sqr"):
+        for r in two(lambda: ccase(fn, rc(ctx, (3,), kind="normal"))):
+            yield r
+    for eq, sx, sy in [("ij,jk->ik", (2, 3), (3, 2)), ("ab,cd->acbd", (2, 2), (2, 2)), ("b,bg->g", (3,), (3, 2))]:
+        for r in two(lambda: ccase("einsum", rc(ctx, sx, kind="normal"), rc(ctx, sy, kind="normal"), eq=eq, real_part=True, imag_part=True)):
+            yield r
+        for r in two(lambda: ccase("einsum", rc(ctx, sx, kind="normal"), rc(ctx, sy, kind="normal"), eq=eq, real_part=True, imag_part=False)):
+            yield r
+    for shp in [(3,), (2, 2)]:
+        for r in two(lambda: put(put({"fn": "sigmoid"}, "x", R(rv(ctx, shp, kind="uniform"))), "y", R(rv(ctx, shp, kind="uniform")))):
+            yield r
+        for form in ("pair", "numpy"):
+            for r in two(lambda: put(put({"fn": "make_complex", "form": form}, "x", R(rv(ctx, shp, kind="normal"))), "y",
+                                     R(rv(ctx, shp, kind="normal")))):
+                yield r
+        for r in two(lambda: put({"fn": "make_complex", "form": "single"}, "x", R(rv(ctx, shp, kind="normal")))):
+            yield r
+        for r in two(lambda: ccase("scalar_mult", rc(ctx, shp, kind="normal"), rc(ctx, shp, kind="normal"), out="fresh", fill=0.0)):
+            yield r
+
+
+def g_redteam2(ctx, n):
+    """fixed cases of the round-2 classes; always first"""
+    for g in (same_shape_pairs(ctx), g_einsum_forms(ctx, n, fixed=True), g_poles(ctx, n, fixed=True), g_np_views(ctx, n, fixed=True)):
+        for c, flag in g:
+            yield c, flag
+
+
+def g_redteam2_random(ctx, n):
+    for g in (g_einsum_forms(ctx, n, fixed=False), g_np_views(ctx, n, fixed=False)):
+        for c, flag in g:
+            yield c, flag
 
 
 def g_blindspots(ctx, n):
@@ -1098,8 +1457,10 @@ def g_batched(ctx, n):
 
 
 GENERATORS = [
+    ("round-2 classes (fixed, first): same-shape call pairs, einsum equation forms, sigmoid next to a pole, ndarray views", g_redteam2),
     ("blind-spot classes (fixed, first)", g_blindspots),
     ("blind-spot classes (random)", g_batched),
+    ("round-2 classes (random): einsum equations, ndarray views", g_redteam2_random),
     ("make_complex", g_make_complex),
     ("numpy/real/imag", g_unary(["numpy", "real", "imag"])),
     ("conj/conjugate/absolute_value", g_unary(["conj", "conjugate", "absolute_value"])),
@@ -1149,6 +1510,7 @@ def run(ctx):
         t0 = time.time()
         for case, flag in g(ctx, n):
             eval_case(ctx, add_layouts(ctx, case), corr=True, shape_flag=flag)
+        flush_held(ctx)
         ctx.extra.setdefault("wall_per_generator_s", {})[name] = round(time.time() - t0, 2)
     ctx.extra["run_wall_s"] = round(time.time() - t_all, 2)
 
@@ -1179,8 +1541,14 @@ def replay(ctx, rec):
         case = r.get("case") if isinstance(r, dict) else None
         if isinstance(case, dict) and "fn" in case and "x" in case:
             n0 = len(ctx.failures)
+            later = case.get("later")
+            case = {k: v for k, v in case.items() if k not in ("later", "later_call", "held_result_changed", "calls_ago")}
             try:
+                flush_held(ctx)
                 eval_case(ctx, case, corr=True)
+                if isinstance(later, dict) and "fn" in later:      # a result changed by the NEXT call: run that call too
+                    eval_case(ctx, later, corr=False)
+                flush_held(ctx)
             except KeyError:
                 continue
             done += 1
